@@ -802,3 +802,8 @@ def seq_track_events(bars, channel, bpm):
 
 def seq_track_final_bpm(bars, bpm):
     return bpm if len(bars) == 0 else seq_track_final_bpm(bars[1:], seq_final_bpm(bars[0].bar, bpm))
+
+
+def uniq_in_order(xs):
+    """the distinct values of xs in order of first occurrence"""
+    return [] if len(xs) == 0 else [xs[0]] + uniq_in_order([x for x in xs[1:] if x != xs[0]])
